@@ -179,6 +179,27 @@ def correspond(ctx, corr):
             corr.violate("decode:order", {"frame": sub[k][:3], "first": first[k]}, first[k], again,
                          "decoding depends on what was decoded before")
     corr.count("purity_redecode", len(sub))
+    # ---- purity, ordered pairs: decode a CONTEXT frame, then a TARGET frame; the target's result must be what a
+    # decoder that has never seen the context returns (computed by the model, which is a function) ----
+    ctx_frames = [(16, 0xC100 | n, 0) for n in (0, 1, 4, 5, 6, 8, 9, 255)] + \
+                 [(16, 0xA300, 0), (16, 0xFF00, 0), (16, 0x01E0, 6), (24, 0xC10100, 0), (24, 0x01FE00, 0),
+                  (24, (5 << 17) | (1 << 15) | (3 << 10) | 2, 0), (12, 0x123, 0), (16, 0x0123, 0)]
+    targets = [(16, (a << 8) | op, dt) for a in (0x01, 0x7F, 0x85, 0xFF) for op in
+               (0x00, 0x10, 0x90, 0xA0, 0xE0, 0xE3, 0xED, 0xF0, 0xFC, 0xFF) for dt in (0, 6)] + \
+              [(12, 0x123, 0), (16, 0x0123, 0), (20, 0x00123, 0), (24, 0x000123, 0), (24, 0x01FE30, 0),
+               (24, (5 << 17) | (1 << 15) | (3 << 10) | 2, 0), (24, 0x800400, 0)]
+    plines = ["dec %d %d %d -" % t for t in targets]
+    want = dict(zip(targets, cc.run_model("m_cmd", plines)))
+    npairs = 0
+    for c in ctx_frames:
+        for t in targets:
+            command.from_frame(ForwardFrame(c[0], c[1]), devicetype=c[2])
+            got = cc.cmd_canon(lambda: command.from_frame(ForwardFrame(t[0], t[1]), devicetype=t[2]))
+            npairs += 1
+            if got != want[t]:
+                corr.violate("decode:order", {"first": "dec %d %d %d -" % c, "then": "dec %d %d %d -" % t},
+                             want[t], got, "the result of decoding depends on what was decoded before")
+    corr.count("purity_ordered_pairs", npairs)
     snap1 = registry_snapshot()
     if snap0 != snap1:
         corr.violate("decode:registry", "registry snapshot before/after the run", snap0, snap1,
